@@ -364,7 +364,7 @@ Proof. unfold relocate_at. lia. Qed.
 (* PWhitespace *)
 
 (* Branch 1 (cursor on a blank line that still exists): the result is
-   new_token_offset + nl_len * (nl - lines_back) - ws_len(token).
+   new_token_offset + kept_len - ws_len(token).
    The subtraction cannot go negative, because offset_for_token(idx) already contains
    ws_len(token idx) as its last summand — for ignored and non-ignored tokens alike. *)
 Theorem whitespace_no_underflow rs toks idx p col nla :
@@ -374,7 +374,7 @@ Proof.
   intros Hn. pose proof (offset_ge_ws_len rs toks idx p Hn) as Hge.
   pose proof (nonbreaking_le_ws_len rs p) as Hnb.
   unfold relocate_subs. destruct (0 <? N.min nla (f_nl (snd p))).
-  - set (X := nl_len rs * _). clearbody X. constructor; [cbv beta; lia|constructor].
+  - constructor; [cbv beta; lia|constructor].
   - destruct (nonbreaking_ws_len rs p) as [wl bf]. cbn [fst] in Hnb.
     set (cws := if bf then 0 else col_for_token_end_post_fmt rs toks idx).
     pose proof (clamp_bounds col cws (cws + wl) ltac:(lia)) as Hc.
@@ -397,10 +397,11 @@ Lemma relocate_no_underflow_out_of_range rs toks idx p n :
   relocate_subs rs toks idx p (PContent n) = [].
 Proof. reflexivity. Qed.
 
-(* Branch 1 stays at or before the token start iff this holds.  It is the weakest hypothesis:
-   see whitespace_back_iff. *)
+(* Branch 1 stays at or before the token start iff this holds.  Since commit 014530d it holds
+   for EVERY token (ws_back_ok_all); before, it failed for ignored tokens whose line breaks are
+   not spelled like the configured newline (finding F22). *)
 Definition ws_back_ok (rs : rsettings) (p : ftoken) (nla : N) : Prop :=
-  nl_len rs * (f_nl (snd p) - lines_back (f_nl (snd p)) nla) <= ws_len rs p.
+  kept_len rs p nla <= ws_len rs p.
 
 Lemma whitespace_back_iff rs toks idx p col nla :
   0 < N.min nla (f_nl (snd p)) ->
@@ -410,16 +411,66 @@ Proof.
   intros Hlb. apply N.ltb_lt in Hlb. unfold relocate_at, ws_back_ok. rewrite Hlb. lia.
 Qed.
 
-(* tokens the formatter has laid out satisfy it for every setting *)
+(* formatted tokens: kept_len = nl_len * kept_breaks <= nl_len * newlines_before <= ws_len *)
 Lemma ws_back_ok_formatted rs p nla : f_ignored (snd p) = false -> ws_back_ok rs p nla.
 Proof.
-  destruct p as [tok f]. cbn [snd]. intros Hi. unfold ws_back_ok. cbn [snd].
+  destruct p as [tok f]. cbn [snd]. intros Hi. unfold ws_back_ok, kept_len. cbn [snd]. rewrite Hi.
   rewrite ws_len_unfold_fmt by exact Hi.
   pose proof (lines_back_le (f_nl f) nla).
   assert (nl_len rs * (f_nl f - lines_back (f_nl f) nla) <= f_nl f * nl_len rs).
   { rewrite (N.mul_comm (f_nl f)). apply N.mul_le_mono_l. lia. }
   lia.
 Qed.
+
+(* ignored tokens: every LF position of ws is < |ws|, so "just past an LF of ws" is <= |ws| *)
+Lemma lf_positions_bound l : forall i, Forall (fun pos => i <= pos /\ pos < i + blen l) (lf_positions_from i l).
+Proof.
+  induction l as [|b t IH]; intros i; [constructor|]. cbn [lf_positions_from]. rewrite blen_cons.
+  specialize (IH (i + 1)).
+  assert (IH' : Forall (fun pos => i <= pos /\ pos < i + (1 + blen t)) (lf_positions_from (i + 1) t)).
+  { eapply Forall_impl; [|exact IH]. cbv beta. intros a Ha. lia. }
+  destruct (b =? 10); [constructor; [lia|exact IH']|exact IH'].
+Qed.
+
+Lemma last_opt_in {A} (l : list A) a : last_opt l = Some a -> In a l.
+Proof.
+  unfold last_opt. destruct (rev l) as [|x t] eqn:E; [discriminate|]. intros H. injection H as ->.
+  apply in_rev. rewrite E. left. reflexivity.
+Qed.
+
+Lemma kept_len_ignored_le ws k : kept_len_ignored ws k <= blen ws.
+Proof.
+  unfold kept_len_ignored. destruct (last_opt (firstn k (lf_positions_from 0 ws))) as [pos|] eqn:E; [|lia].
+  apply last_opt_in in E. apply (In_nth_error) in E. destruct E as [n En].
+  pose proof (lf_positions_bound ws 0) as Hall. rewrite Forall_forall in Hall.
+  assert (Hin : In pos (lf_positions_from 0 ws)).
+  { apply nth_error_In in En. revert En. generalize (lf_positions_from 0 ws). intros l.
+    revert l. induction k as [|k IHk]; intros [|x l]; cbn [firstn]; try contradiction.
+    intros [->|H]; [left; reflexivity|right; apply IHk, H]. }
+  specialize (Hall pos Hin). cbv beta in Hall. lia.
+Qed.
+
+Lemma ws_back_ok_ignored rs p nla : f_ignored (snd p) = true -> ws_back_ok rs p nla.
+Proof.
+  destruct p as [tok f]. cbn [snd]. intros Hi. unfold ws_back_ok, kept_len, ws_len. cbn [snd fst].
+  rewrite Hi. apply kept_len_ignored_le.
+Qed.
+
+Theorem ws_back_ok_all rs p nla : ws_back_ok rs p nla.
+Proof.
+  destruct (f_ignored (snd p)) eqn:Hi; [apply ws_back_ok_ignored|apply ws_back_ok_formatted]; exact Hi.
+Qed.
+
+(* kept for compatibility with earlier statements (the hypotheses are no longer needed) *)
+Lemma ws_back_ok_ignored_lf rs p nla :
+  f_ignored (snd p) = true -> nl_len rs <= 1 -> f_nl (snd p) <= count_lf (t_ws (fst p)) ->
+  ws_back_ok rs p nla.
+Proof. intros _ _ _. apply ws_back_ok_all. Qed.
+
+Lemma ws_back_ok_ignored_general rs p nla :
+  f_ignored (snd p) = true -> nl_len rs * f_nl (snd p) <= blen (t_ws (fst p)) ->
+  ws_back_ok rs p nla.
+Proof. intros _ _. apply ws_back_ok_all. Qed.
 
 (* where exactly the cursor goes for a formatted token: to the start of the line that is
    lines_back lines above the token *)
@@ -430,7 +481,7 @@ Lemma whitespace_blank_line_position rs toks idx tok f col nla :
    - Z.of_N (f_sp f + f_cont f * blen (rs_cont rs) + f_ind f * blen (rs_indent rs))
    - Z.of_N (nl_len rs * lines_back (f_nl f) nla))%Z.
 Proof.
-  intros Hi Hlb. apply N.ltb_lt in Hlb. unfold relocate_at. cbn [snd fst]. rewrite Hlb.
+  intros Hi Hlb. apply N.ltb_lt in Hlb. unfold relocate_at, kept_len. cbn [snd fst]. rewrite Hlb, Hi.
   rewrite ws_len_unfold_fmt by exact Hi.
   pose proof (lines_back_le (f_nl f) nla) as Hle.
   rewrite N.mul_sub_distr_l. rewrite (N.mul_comm (f_nl f) (nl_len rs)).
@@ -438,29 +489,16 @@ Proof.
   lia.
 Qed.
 
-(* ignored tokens: FormattingData::from sets newlines_before = min(65535, number of LF in the
-   original whitespace).  With a one-byte newline string the bound holds … *)
-Lemma ws_back_ok_ignored_lf rs p nla :
-  f_ignored (snd p) = true -> nl_len rs <= 1 -> f_nl (snd p) <= count_lf (t_ws (fst p)) ->
-  ws_back_ok rs p nla.
+(* … and for an ignored token: into the token's own (verbatim) whitespace, just past its
+   kept_breaks-th LF, whatever the configured newline string is *)
+Lemma whitespace_ignored_position rs toks idx tok f col nla :
+  f_ignored f = true -> 0 < N.min nla (f_nl f) ->
+  relocate_at rs toks idx (tok, f) (PWhitespace col nla) =
+  (Z.of_N (offset_for_token rs toks idx) - Z.of_N (blen (t_ws tok))
+   + Z.of_N (kept_len_ignored (t_ws tok) (N.to_nat (f_nl f - lines_back (f_nl f) nla))))%Z.
 Proof.
-  destruct p as [tok f]. cbn [snd fst]. intros Hi Hn Hc. unfold ws_back_ok, ws_len. cbn [snd].
-  rewrite Hi. pose proof (count_lf_le (t_ws tok)).
-  assert (nl_len rs * (f_nl f - lines_back (f_nl f) nla) <= 1 * (f_nl f - lines_back (f_nl f) nla))
-    by (apply N.mul_le_mono_r; exact Hn).
-  lia.
-Qed.
-
-(* … and also with CRLF when every LF of the original whitespace is part of a CR LF pair *)
-Lemma ws_back_ok_ignored_general rs p nla :
-  f_ignored (snd p) = true -> nl_len rs * f_nl (snd p) <= blen (t_ws (fst p)) ->
-  ws_back_ok rs p nla.
-Proof.
-  destruct p as [tok f]. cbn [snd fst]. intros Hi Hn. unfold ws_back_ok, ws_len. cbn [snd].
-  rewrite Hi.
-  assert (nl_len rs * (f_nl f - lines_back (f_nl f) nla) <= nl_len rs * f_nl f)
-    by (apply N.mul_le_mono_l; lia).
-  lia.
+  intros Hi Hlb. apply N.ltb_lt in Hlb. unfold relocate_at, kept_len, ws_len. cbn [snd fst].
+  rewrite Hlb, Hi. lia.
 Qed.
 
 (* Branch 2 (same line as the token): between the start of the token's non-breaking whitespace
@@ -494,67 +532,91 @@ Qed.
 (* ------------------------------------------------------------------ *)
 (* bounds *)
 
-(* hypothesis of the bounds theorem: only the blank-line branch of PWhitespace needs one *)
+(* The former hypothesis of the bounds theorem; it now always holds (pos_ok_always). *)
 Definition pos_ok (rs : rsettings) (p : ftoken) (pos : tokpos) : Prop :=
   match pos with
   | PWhitespace _ nla => 0 < N.min nla (f_nl (snd p)) -> ws_back_ok rs p nla
   | _ => True
   end.
 
+Lemma pos_ok_always rs p pos : pos_ok rs p pos.
+Proof. destruct pos; cbn [pos_ok]; auto using ws_back_ok_all. Qed.
+
+(* every relocated cursor of an in-range token index lies within the output: for every TokPos,
+   every token (ignored or not, whatever f_nl is), every setting; safety net or not *)
 Theorem relocate_in_bounds rs toks idx pos p :
-  nth_error toks idx = Some p -> pos_ok rs p pos ->
+  nth_error toks idx = Some p ->
   exists z, relocate rs toks idx pos = Some z /\
             (0 <= z <= Z.of_N (blen (recon rs false toks)))%Z.
 Proof.
-  intros Hn Hok. rewrite (relocate_in_range _ _ _ _ _ Hn). eexists; split; [reflexivity|].
+  intros Hn. rewrite (relocate_in_range _ _ _ _ _ Hn). eexists; split; [reflexivity|].
   pose proof (offset_for_token_le rs toks false idx p Hn) as Hle.
   destruct pos as [off|rc nla|col nla].
   - unfold relocate_at. pose proof (u32_le (blen (t_content (fst p)))). lia.
   - pose proof (multiline_no_underflow rs toks idx p rc nla). lia.
-  - cbn [pos_ok] in Hok.
-    pose proof (whitespace_no_underflow rs toks idx p col nla Hn) as Hsubs.
+  - pose proof (whitespace_no_underflow rs toks idx p col nla Hn) as Hsubs.
     destruct (N.eq_dec (N.min nla (f_nl (snd p))) 0) as [Hz|Hnz].
     + pose proof (whitespace_same_line_bounds rs toks idx p col nla Hz) as Hb.
       pose proof (offset_ge_ws_len rs toks idx p Hn). pose proof (nonbreaking_le_ws_len rs p). lia.
     + assert (Hpos : 0 < N.min nla (f_nl (snd p))) by lia.
-      pose proof (proj2 (whitespace_back_iff rs toks idx p col nla Hpos) (Hok Hpos)) as Hup.
+      pose proof (proj2 (whitespace_back_iff rs toks idx p col nla Hpos) (ws_back_ok_all rs p nla)) as Hup.
       split; [|lia].
       unfold relocate_subs in Hsubs. unfold relocate_at.
       apply N.ltb_lt in Hpos. rewrite Hpos in *. inversion Hsubs as [|z l Hz _]; subst. exact Hz.
 Qed.
 
-(* for the positions that do not need a hypothesis *)
+(* sharper: a whitespace cursor never moves past the start of its token, a content cursor never
+   leaves its token *)
+Theorem relocate_within_token rs toks idx pos p :
+  nth_error toks idx = Some p ->
+  exists z, relocate rs toks idx pos = Some z /\
+    match pos with
+    | PWhitespace _ _ =>
+        (Z.of_N (offset_for_token rs toks idx) - Z.of_N (ws_len rs p) <= z
+         <= Z.of_N (offset_for_token rs toks idx))%Z
+    | _ =>
+        (Z.of_N (offset_for_token rs toks idx) <= z
+         <= Z.of_N (offset_for_token rs toks idx + blen (t_content (fst p))))%Z
+    end.
+Proof.
+  intros Hn. rewrite (relocate_in_range _ _ _ _ _ Hn). eexists; split; [reflexivity|].
+  destruct pos as [off|rc nla|col nla].
+  - unfold relocate_at. pose proof (u32_le (blen (t_content (fst p)))). lia.
+  - apply multiline_no_underflow.
+  - destruct (N.eq_dec (N.min nla (f_nl (snd p))) 0) as [Hz|Hnz].
+    + pose proof (whitespace_same_line_bounds rs toks idx p col nla Hz) as Hb.
+      pose proof (nonbreaking_le_ws_len rs p). lia.
+    + assert (Hpos : 0 < N.min nla (f_nl (snd p))) by lia.
+      pose proof (proj2 (whitespace_back_iff rs toks idx p col nla Hpos) (ws_back_ok_all rs p nla)) as Hup.
+      split; [|exact Hup]. unfold relocate_at. apply N.ltb_lt in Hpos. rewrite Hpos. lia.
+Qed.
+
+(* kept under their old names *)
 Corollary relocate_in_bounds_content rs toks idx off p :
   nth_error toks idx = Some p ->
   exists z, relocate rs toks idx (PContent off) = Some z /\
             (0 <= z <= Z.of_N (blen (recon rs false toks)))%Z.
-Proof. intros Hn. apply (relocate_in_bounds _ _ _ _ p Hn). exact I. Qed.
+Proof. apply relocate_in_bounds. Qed.
 
 Corollary relocate_in_bounds_multiline rs toks idx rc nla p :
   nth_error toks idx = Some p ->
   exists z, relocate rs toks idx (PMultiline rc nla) = Some z /\
             (0 <= z <= Z.of_N (blen (recon rs false toks)))%Z.
-Proof. intros Hn. apply (relocate_in_bounds _ _ _ _ p Hn). exact I. Qed.
+Proof. apply relocate_in_bounds. Qed.
 
 Corollary relocate_in_bounds_formatted rs toks idx pos p :
   nth_error toks idx = Some p -> f_ignored (snd p) = false ->
   exists z, relocate rs toks idx pos = Some z /\
             (0 <= z <= Z.of_N (blen (recon rs false toks)))%Z.
-Proof.
-  intros Hn Hi. apply (relocate_in_bounds _ _ _ _ p Hn).
-  destruct pos; cbn [pos_ok]; auto using ws_back_ok_formatted.
-Qed.
+Proof. intros Hn _. apply (relocate_in_bounds _ _ _ _ p Hn). Qed.
 
 Example relocate_in_bounds_ex :
   let rs := mkRS [13;10] [32;32] [32;32] in
   let p := (mkToken [] [98] TT_Identifier, mkFmt false 2 1 0 0) in
   let toks := [(mkToken [] [97] TT_Identifier, mkFmt false 0 0 0 0); p] in
-  nth_error toks 1 = Some p /\ pos_ok rs p (PWhitespace 0 1) /\
+  nth_error toks 1 = Some p /\
   relocate rs toks 1 (PWhitespace 0 1) = Some 3%Z /\ blen (recon rs false toks) = 8.
-Proof.
-  cbv zeta. split; [reflexivity|]. split; [|split; reflexivity].
-  intros _. apply ws_back_ok_formatted. reflexivity.
-Qed.
+Proof. cbv zeta. repeat split; reflexivity. Qed.
 
 (* ------------------------------------------------------------------ *)
 (* cursor beyond the last token *)
@@ -611,18 +673,14 @@ Proof.
 Qed.
 
 (* ------------------------------------------------------------------ *)
-(* GENUINE FINDING: blank-line cursor in an ignored (`pasfmt off`) region when the configured
-   line ending is CRLF but the region uses LF.
-
-   For an ignored token ws_len is the ORIGINAL whitespace length and newlines_before the ORIGINAL
-   LF count, but the blank-line branch multiplies by the CONFIGURED newline length.  The
-   subtraction does not underflow (whitespace_no_underflow), but ws_back_ok fails and the cursor
-   lands after the token start — possibly after the end of the output.
-
-   Witness = harness case: input "// pasfmt off" LF LF LF LF LF LF, line ending CRLF, cursor 18
-   (start of the last blank line).  Output is the 19 input bytes unchanged; the real
-   implementation reports cursor 23 (and 21 for cursor 17).  vh trace confirms 15,17,19,21,23
-   for cursors 14..18. *)
+(* Finding F22 (repaired by commit 014530d): a blank-line cursor in front of an ignored
+   (`pasfmt off`) token used the CONFIGURED newline length although the whitespace is emitted
+   verbatim.  With line_ending=crlf and LF text the cursor was reported beyond the end of the
+   output (input "// pasfmt off" LF LF LF LF LF LF: cursors 14..18 -> 15,17,19,21,23 in a 19-byte
+   result); with LF configured and CRLF text it landed between a CR and its LF.
+   The repaired code measures the token's own line breaks.  The old witnesses are kept as
+   regression lemmas: they now stay in bounds, in fact in place (confirmed with vh trace on the
+   rebuilt harness). *)
 Definition crlf_rs : rsettings := rs_of_config true false 2 2.
 Definition crlf_raw : list rtok :=
   [([], [47;47;32;112;97;115;102;109;116;32;111;102;102], RTT_Comment CoK_IndividualLine);
@@ -632,49 +690,95 @@ Definition crlf_final : list ftoken :=
     mkFmt true 0 0 0 0);
    (mkToken [10;10;10;10;10;10] [] TT_Eof, mkFmt true 6 0 0 0)].
 
-Theorem whitespace_ignored_crlf_out_of_bounds_refuted :
+Theorem whitespace_ignored_crlf_in_bounds_example :
   exists rs raw final c idx pos p z,
     rs_newline rs = [13; 10] /\
     process_cursor raw c = (idx, pos) /\ nth_error final idx = Some p /\
     f_ignored (snd p) = true /\ f_nl (snd p) = count_lf (t_ws (fst p)) /\
     recon rs false final = concat (map r_str raw) /\        (* the text is unchanged *)
     track_cursor rs raw final c = Some z /\
-    (Z.of_N (blen (recon rs false final)) < z)%Z /\          (* beyond the end of the output *)
-    ~ pos_ok rs p pos.
+    (0 <= z <= Z.of_N (blen (recon rs false final)))%Z /\    (* inside the output *)
+    z = Z.of_N c.                                            (* and where it was *)
 Proof.
   exists crlf_rs, crlf_raw, crlf_final, 18, 1%nat, (PWhitespace 0 1),
-    (mkToken [10;10;10;10;10;10] [] TT_Eof, mkFmt true 6 0 0 0), 23%Z.
-  repeat split; try reflexivity.
-  intros H. cbn [pos_ok] in H. specialize (H eq_refl). vm_compute in H. apply H. reflexivity.
+    (mkToken [10;10;10;10;10;10] [] TT_Eof, mkFmt true 6 0 0 0), 18%Z.
+  repeat split; try reflexivity; vm_compute; congruence.
 Qed.
 
 Example whitespace_ignored_crlf_all_cursors :
   map (track_cursor_u32 crlf_rs crlf_raw crlf_final) [13;14;15;16;17;18;19;20]
-  = [13;15;17;19;21;23;19;19] /\ blen (recon crlf_rs false crlf_final) = 19.
+  = [13;14;15;16;17;18;19;19] /\ blen (recon crlf_rs false crlf_final) = 19.
 Proof. vm_compute. split; reflexivity. Qed.
 
-(* the mirror image (LF configured, CRLF in the ignored region) stays in bounds but lands on the
-   wrong line: two bytes too early per remaining line *)
+(* the mirror image (LF configured, CRLF in the ignored region): the cursor at the start of the
+   last blank line (input offset 6, col 0, one LF after it) stays there *)
 Example whitespace_ignored_lf_config_crlf_text :
   let rs := rs_of_config false false 2 2 in
   let final := [(mkToken [] [47;47] (TT_Comment CoK_IndividualLine), mkFmt true 0 0 0 0);
                 (mkToken [13;10;13;10;13;10] [] TT_Eof, mkFmt true 3 0 0 0)] in
-  (* cursor at input offset 6 = start of the last blank line: col 0, one LF after it *)
-  relocate rs final 1 (PWhitespace 0 1) = Some 4%Z.
+  relocate rs final 1 (PWhitespace 0 1) = Some 6%Z.
 Proof. reflexivity. Qed.
 
-(* with the hypothesis that fails above, the same branch is exact for ignored tokens: an LF-only
-   region under an LF configuration keeps the cursor on its line *)
-Lemma whitespace_ignored_lf_position rs toks idx p col nla :
-  f_ignored (snd p) = true -> nl_len rs = 1 -> f_nl (snd p) = count_lf (t_ws (fst p)) ->
-  0 < N.min nla (f_nl (snd p)) ->
-  relocate_at rs toks idx p (PWhitespace col nla) =
-  (Z.of_N (offset_for_token rs toks idx) - Z.of_N (blen (t_ws (fst p)))
-   + Z.of_N (f_nl (snd p) - lines_back (f_nl (snd p)) nla))%Z.
+(* General form: in UNCHANGED verbatim whitespace a cursor at the start of a blank line (right
+   after an LF, with at least one more LF before the token) stays exactly where it was — for
+   every configured newline string, CR LF or LF spelling of the text, and column. *)
+Lemma lf_positions_app a : forall i b,
+  lf_positions_from i (a ++ b) = lf_positions_from i a ++ lf_positions_from (i + blen a) b.
 Proof.
-  intros Hi Hn Hc Hlb. apply N.ltb_lt in Hlb. unfold relocate_at. rewrite Hlb, Hn.
-  destruct p as [tok f]. cbn [fst snd] in *. unfold ws_len. rewrite Hi. lia.
+  induction a as [|x a IH]; intros i b.
+  - cbn [app lf_positions_from]. rewrite blen_nil, N.add_0_r. reflexivity.
+  - cbn [app lf_positions_from]. rewrite IH, blen_cons.
+    replace (i + 1 + blen a) with (i + (1 + blen a)) by lia.
+    destruct (x =? 10); reflexivity.
 Qed.
+
+Lemma lf_positions_length l : forall i, N.of_nat (length (lf_positions_from i l)) = count_lf l.
+Proof.
+  induction l as [|b t IH]; intros i; [reflexivity|]. cbn [lf_positions_from count_lf].
+  destruct (b =? 10); [cbn [length]; rewrite <- (IH (i + 1)); lia|rewrite IH; lia].
+Qed.
+
+Lemma kept_len_ignored_after_lf a b :
+  kept_len_ignored (a ++ 10 :: b) (N.to_nat (count_lf a + 1)) = blen a + 1.
+Proof.
+  unfold kept_len_ignored. rewrite lf_positions_app. cbn [lf_positions_from].
+  change (10 =? 10) with true. cbv iota.
+  pose proof (lf_positions_length a 0) as Hl.
+  replace (N.to_nat (count_lf a + 1)) with (length (lf_positions_from 0 a ++ [0 + blen a]))
+    by (rewrite app_length; cbn [length]; lia).
+  replace (lf_positions_from 0 a ++ (0 + blen a) :: lf_positions_from (0 + blen a + 1) b)
+    with ((lf_positions_from 0 a ++ [0 + blen a]) ++ lf_positions_from (0 + blen a + 1) b)
+    by (rewrite <- app_assoc; reflexivity).
+  rewrite firstn_app, Nat.sub_diag, firstn_all. cbn [firstn]. rewrite app_nil_r, last_opt_app. lia.
+Qed.
+
+Lemma count_lf_app a b : count_lf (a ++ b) = count_lf a + count_lf b.
+Proof. induction a as [|x a IH]; cbn [app count_lf]; [lia|]. rewrite IH. lia. Qed.
+
+Theorem whitespace_ignored_same_position rs toks idx tok f a b col :
+  nth_error toks idx = Some (tok, f) -> f_ignored f = true ->
+  t_ws tok = a ++ 10 :: b -> 0 < count_lf b ->
+  f_nl f = count_lf (t_ws tok) ->              (* FormattingData::from, below the u16 cap *)
+  relocate rs toks idx (PWhitespace col (count_lf b))
+  = Some (Z.of_N (offset_for_token rs toks idx) - Z.of_N (blen (t_ws tok)) + Z.of_N (blen a + 1))%Z.
+Proof.
+  intros Hn Hi Hws Hb Hnl. rewrite (relocate_in_range _ _ _ _ _ Hn).
+  assert (Hcnt : f_nl f = count_lf a + 1 + count_lf b).
+  { rewrite Hnl, Hws, count_lf_app. cbn [count_lf]. change (10 =? 10) with true. cbv iota. lia. }
+  rewrite whitespace_ignored_position; [|exact Hi|lia].
+  unfold lines_back.
+  assert (E : (f_nl f <=? count_lf b) = false) by (apply N.leb_gt; lia). rewrite E. cbn [andb].
+  replace (f_nl f - N.min (count_lf b) (f_nl f)) with (count_lf a + 1) by lia.
+  rewrite Hws, kept_len_ignored_after_lf. reflexivity.
+Qed.
+
+Example whitespace_ignored_same_position_ex :
+  let tok := mkToken [10;10;10;10;10;10] [] TT_Eof in
+  let f := mkFmt true 6 0 0 0 in
+  nth_error crlf_final 1 = Some (tok, f) /\ f_ignored f = true /\
+  t_ws tok = [10;10;10;10] ++ 10 :: [10] /\ 0 < count_lf [10] /\ f_nl f = count_lf (t_ws tok) /\
+  relocate crlf_rs crlf_final 1 (PWhitespace 0 (count_lf [10])) = Some 18%Z.
+Proof. cbv zeta. repeat split; reflexivity. Qed.
 
 (* ------------------------------------------------------------------ *)
 (* multi-line tokens: reverse_col / newlines_after round trip *)
@@ -1063,36 +1167,45 @@ Qed.
 (* ------------------------------------------------------------------ *)
 (* end to end: bounds *)
 
+(* Unconditional in the cursor, the raw tokens, the formatting data and the settings: the only
+   assumptions are that there is a token and that the last token (Eof) has no content. *)
 Theorem track_cursor_in_bounds rs raw final c :
   final <> [] ->
   (forall p, last_opt final = Some p -> t_content (fst p) = []) ->
-  (forall idx pos p, process_cursor raw c = (idx, pos) -> nth_error final idx = Some p ->
-                     pos_ok rs p pos) ->
   exists z, track_cursor rs raw final c = Some z /\
             (0 <= z <= Z.of_N (blen (recon rs false final)))%Z.
 Proof.
-  intros Hne Hlast Hok. unfold track_cursor. destruct (process_cursor raw c) as [idx pos] eqn:Ep.
+  intros Hne Hlast. unfold track_cursor. destruct (process_cursor raw c) as [idx pos] eqn:Ep.
   destruct (nth_error final idx) as [p|] eqn:En.
-  - apply (relocate_in_bounds rs final idx pos p En). apply (Hok idx pos p eq_refl En).
+  - apply (relocate_in_bounds rs final idx pos p En).
   - apply nth_error_None in En. destruct (last_opt final) as [p|] eqn:El.
     + apply (relocate_past_end_in_bounds rs final idx pos p En El). apply Hlast. reflexivity.
     + apply last_opt_none in El. contradiction.
 Qed.
 
-(* no `pasfmt off` region: unconditional *)
+(* the wrapped u32 value that is actually stored equals the mathematical one when the output is
+   shorter than 4 GiB: no wrap-around *)
+Corollary track_cursor_u32_in_bounds rs raw final c :
+  final <> [] ->
+  (forall p, last_opt final = Some p -> t_content (fst p) = []) ->
+  blen (recon rs false final) < 4294967296 ->
+  track_cursor_u32 rs raw final c <= blen (recon rs false final) /\
+  track_cursor rs raw final c = Some (Z.of_N (track_cursor_u32 rs raw final c)).
+Proof.
+  intros Hne Hlast Hsmall. destruct (track_cursor_in_bounds rs raw final c Hne Hlast) as (z & Hz & Hb).
+  unfold track_cursor_u32. rewrite Hz. rewrite u32z_small by lia. split; [lia|].
+  rewrite Z2N.id by lia. reflexivity.
+Qed.
+
+(* special cases kept under their old names and statements *)
 Corollary track_cursor_in_bounds_formatted rs raw final c :
   final <> [] ->
   (forall p, last_opt final = Some p -> t_content (fst p) = []) ->
   Forall (fun p => f_ignored (snd p) = false) final ->
   exists z, track_cursor rs raw final c = Some z /\
             (0 <= z <= Z.of_N (blen (recon rs false final)))%Z.
-Proof.
-  intros Hne Hlast Hall. apply track_cursor_in_bounds; [exact Hne|exact Hlast|].
-  intros idx pos p _ Hn. rewrite Forall_forall in Hall. specialize (Hall p (nth_error_In _ _ Hn)).
-  destruct pos; cbn [pos_ok]; auto using ws_back_ok_formatted.
-Qed.
+Proof. intros Hne Hlast _. apply track_cursor_in_bounds; assumption. Qed.
 
-(* ignored tokens are fine too when the configured newline is one byte (LF) *)
 Corollary track_cursor_in_bounds_lf rs raw final c :
   final <> [] ->
   (forall p, last_opt final = Some p -> t_content (fst p) = []) ->
@@ -1100,14 +1213,21 @@ Corollary track_cursor_in_bounds_lf rs raw final c :
   Forall (fun p => f_ignored (snd p) = true -> f_nl (snd p) <= count_lf (t_ws (fst p))) final ->
   exists z, track_cursor rs raw final c = Some z /\
             (0 <= z <= Z.of_N (blen (recon rs false final)))%Z.
-Proof.
-  intros Hne Hlast Hnl Hall. apply track_cursor_in_bounds; [exact Hne|exact Hlast|].
-  intros idx pos p _ Hn. rewrite Forall_forall in Hall. specialize (Hall p (nth_error_In _ _ Hn)).
-  destruct pos as [off|rc nla|col nla]; cbn [pos_ok]; auto. intros _.
-  destruct (f_ignored (snd p)) eqn:Hi.
-  - apply ws_back_ok_ignored_lf; auto.
-  - apply ws_back_ok_formatted, Hi.
-Qed.
+Proof. intros Hne Hlast _ _. apply track_cursor_in_bounds; assumption. Qed.
+
+(* what FormattingData::from guarantees for ignored tokens; NOT needed for the bounds (they hold
+   for any f_nl), stated for reference and used by whitespace_ignored_same_position *)
+Definition ignored_nl_ok (toks : list ftoken) : Prop :=
+  Forall (fun p => f_ignored (snd p) = true ->
+                   f_nl (snd p) = N.min 65535 (count_lf (t_ws (fst p)))) toks.
+
+Corollary track_cursor_in_bounds_ignored_nl_ok rs raw final c :
+  final <> [] ->
+  (forall p, last_opt final = Some p -> t_content (fst p) = []) ->
+  ignored_nl_ok final ->
+  exists z, track_cursor rs raw final c = Some z /\
+            (0 <= z <= Z.of_N (blen (recon rs false final)))%Z.
+Proof. intros Hne Hlast _. apply track_cursor_in_bounds; assumption. Qed.
 
 Example track_cursor_in_bounds_ex :
   let rs := rs_of_config false false 2 2 in
@@ -1153,7 +1273,7 @@ Proof. cbv zeta. repeat split; vm_compute; congruence. Qed.
 Example whitespace_no_underflow_ex :
   let p := (mkToken [10;10;10;10;10;10] [] TT_Eof, mkFmt true 6 0 0 0) in
   nth_error crlf_final 1 = Some p /\
-  relocate_subs crlf_rs crlf_final 1 p (PWhitespace 0 1) = [23%Z].
+  relocate_subs crlf_rs crlf_final 1 p (PWhitespace 0 1) = [18%Z].
 Proof. split; reflexivity. Qed.
 
 Example multiline_same_offset_ex :
@@ -1176,9 +1296,8 @@ Example offset_for_token_correct_ex :
   offset_for_token rs toks 1 = 6 /\ recon rs false toks = [47;47;13;10;32;32;98;13;10].
 Proof. cbv zeta. repeat split; reflexivity. Qed.
 
-(* harness-confirmed (vh trace, LF configuration, "// pasfmt off" CRLF CRLF CRLF): the text is
-   unchanged, yet cursor 15 (start of the first blank line) is reported at 14 — between the CR
-   and the LF — and cursor 17 at 15 *)
+(* harness-confirmed (vh trace on the repaired tree, LF configuration, "// pasfmt off" CRLF CRLF
+   CRLF): cursors at line starts (15, 17) stay; before the repair they went to 14 and 15 *)
 Example whitespace_ignored_lf_config_crlf_text_real :
   let rs := rs_of_config false false 2 2 in
   let c := [47;47;32;112;97;115;102;109;116;32;111;102;102] in
@@ -1186,7 +1305,7 @@ Example whitespace_ignored_lf_config_crlf_text_real :
   let final : list ftoken := [(mkToken [] c (TT_Comment CoK_IndividualLine), mkFmt true 0 0 0 0);
                               (mkToken [13;10;13;10;13;10] [] TT_Eof, mkFmt true 3 0 0 0)] in
   recon rs false final = raw_text raw /\
-  map (track_cursor_u32 rs raw final) [13;14;15;16;17;18;19;20] = [13;14;14;14;15;15;19;19].
+  map (track_cursor_u32 rs raw final) [13;14;15;16;17;18;19;20] = [13;15;15;15;17;17;19;19].
 Proof. split; reflexivity. Qed.
 
 Print Assumptions offset_for_token_correct.
@@ -1198,7 +1317,10 @@ Print Assumptions multiline_same_offset.
 Print Assumptions multiline_roundtrip.
 Print Assumptions whitespace_no_underflow.
 Print Assumptions relocate_no_underflow.
-Print Assumptions whitespace_ignored_crlf_out_of_bounds_refuted.
+Print Assumptions whitespace_ignored_crlf_in_bounds_example.
+Print Assumptions whitespace_ignored_same_position.
+Print Assumptions relocate_within_token.
+Print Assumptions ws_back_ok_all.
 Print Assumptions multiline_u16_truncation_refuted.
 Print Assumptions process_cursor_ok_boundary.
 Print Assumptions process_cursor_not_boundary_panics_refuted.
